@@ -179,10 +179,9 @@ CLAIMED = {
   "through pcall found by this check is repaired in /repo (0426709) and the repaired behaviour is proved (uninterceptable / kill_exact_nested) and swept at Lua level through pcall / xpcall / callcontext{} / coroutine wrappers; no known finding left.", "6/C05, 14/C05"),
  "C06": ("proof",
   "Lean 4 model of memory accounting over regenerated limit functions: never-reaches-limit / monotone / balanced-release theorems + level A/B correspondence + Lua-level limit sweeps and amplification templates",
-  "Props/C06.lean: mem_never_reaches_limit, mem_kill_step_exact, mem_kill_monotone, limitless_bracket_cannot_absorb_mem (proviso: the body did not release memory of the enclosing context), mem_kill_monotone_nested (two-run simulation through any nesting of limit-less brackets, for programs whose brackets release only their own memory), mem_program_killed_by_memory, release_no_underflow_in_frame, release_unlimited_is_noop; for the cascading ReleaseMem of 8007e69 (mirrored as releaseStack): release_cascades_exactly, release_never_crashes_when_covered (crash iff every context down to the outermost is limited and together they hold less), release_uncovered_is_absorbed, release_never_crashes_from_fresh_runtime (any history, legal or not); require_release_paired (compile pipeline model after fcd5799: every path balanced); and the proved "
-  "stale_limit_absorbs_counterexample / mem_kill_monotone_nested_counterexample (finding C06-STALE-INHERITED-LIMIT). Model/Ctx.lean mirrors runtimecontextmanager.go operation by operation on top of the REGENERATED Generated.Resources (smallerLimit, atLimit, Remove, Merge, Dominates, flag/status constants); Model/CallCtx.lean is Thread.CallContext with the deferred pop and recover explicit. Level B compares the whole context stack (limits, used, status, due, flags of every Parent()) after every operation on a real *rt.Runtime over 36^3 exhaustive boundary histories, random histories incl. API abuse near 2^64 and random CallContext trees; level A re-checks the Spec.Quota relations on the implementation's own trace; Lua legs sweep limits around each generated program's own usage. Amplification templates (rep, concat, unpack, char, format, pack, load, coroutine.create loops, table growth) x N up to 2^40 under 1 MiB with a TotalAlloc bound.",
-  "Real heap growth versus accounted memory is sampled (TotalAlloc under GOMEMLIMIT), not proved; the charge-site extractor of the plan is not built. One recorded defect: after a nested context released memory of its parent its inherited limit is stale and a termination is not propagated "
-  "(C06-STALE-INHERITED-LIMIT; proposed repair: record at PushContext whether a limit is inherited). Note: since 8007e69 a genuine double release is absorbed silently by the unlimited root context.", "6/C06, 14/C06"),
+  "Props/C06.lean: mem_never_reaches_limit, mem_kill_step_exact, mem_kill_monotone, limitless_bracket_cannot_absorb_mem (every well-formed body, no proviso since 52f8e49), mem_kill_monotone_nested (two-run simulation: ANY program of memory requests, releases — also cascading ones — and limit-less brackets), mem_program_killed_by_memory, release_no_underflow_in_frame, release_unlimited_is_noop; for the cascading ReleaseMem of 8007e69 (mirrored as releaseStack): release_cascades_exactly, release_never_crashes_when_covered (crash iff every context down to the outermost is limited and together they hold less), release_uncovered_is_absorbed, release_never_crashes_from_fresh_runtime (any history, legal or not); require_release_paired (compile pipeline model after fcd5799: every path balanced); and the proved "
+  "the former stale-limit witness as a passing example. Model/Ctx.lean mirrors runtimecontextmanager.go operation by operation on top of the REGENERATED Generated.Resources (smallerLimit, atLimit, Remove, Merge, Dominates, flag/status constants); Model/CallCtx.lean is Thread.CallContext with the deferred pop and recover explicit. Level B compares the whole context stack (limits, used, status, due, flags of every Parent()) after every operation on a real *rt.Runtime over 36^3 exhaustive boundary histories, random histories incl. API abuse near 2^64 and random CallContext trees; level A re-checks the Spec.Quota relations on the implementation's own trace; Lua legs sweep limits around each generated program's own usage. Amplification templates (rep, concat, unpack, char, format, pack, load, coroutine.create loops, table growth) x N up to 2^40 under 1 MiB with a TotalAlloc bound.",
+  "Real heap growth versus accounted memory is sampled (TotalAlloc under GOMEMLIMIT), not proved; the charge-site extractor of the plan is not built. No known finding left (interception, cross-context release crash, double release, release race and stale inherited limit were found by this check and are repaired). An uncovered release is absorbed silently by the first context without memory limit (release_uncovered_is_absorbed).", "6/C06, 14/C06"),
  "C07": ("proof",
   "Lean 4 invariant + conservation theorems over all legal histories of the context stack and over all CallContext trees, on regenerated Remove/Merge/Dominates; level A/B correspondence on the real Runtime",
   "Props/C07.lean (24 theorems): push_hard_le_remaining, push_soft_le_hard, push_flags_superset, push_implied_flags, inv_initial/inv_preserved/inv_reachable (no hypothesis on amounts), used_lt_hard, "
